@@ -75,5 +75,5 @@ Definition z_b : ztree := mkTree 9 (Some z_ro) (Node 101 zB 1 (Some 30%Z) [Node 
 Theorem pinned_model_fails_clause5 :
   let s := fst (run Z.add pinned init [LRegister z_t]) in
   let '(s', outs, oc) := step Z.add pinned s (PResponseTree (Some (to_marshal z_b)) (Some z_ro)) in
-  check_step (Some (snap_of [9] s [] Fine)) (PResponseTree (Some (to_marshal z_b)) (Some z_ro)) (snap_of [9] s' outs oc) = [5].
+  check_step [] (Some (snap_of [9] s [] Fine)) (PResponseTree (Some (to_marshal z_b)) (Some z_ro)) (snap_of [9] s' outs oc) = [5].
 Proof. vm_compute. reflexivity. Qed.
